@@ -106,6 +106,7 @@ def gen_case(rng, index, tier):
         arg['spelling'] = './' + arg['spelling']
     opts, stdin, env_extra, optclass = c01.pick_options(
         L, rng, workdirs, [arg], index, allowed=['none', '--trash-dir', '-v'])
+    c01.add_stale(L, rng, [arg], index, p=0.25)
     case = L.desc()
     case['kind'] = 'e2e'
     case['args'] = [arg]
